@@ -195,7 +195,7 @@ func splitSorts(s string) []string {
 }
 
 func (e *Engine) loadPackages(patterns []string) error {
-	cfg := &packages.Config{Mode: packages.LoadAllSyntax, Dir: repoRoot, BuildFlags: []string{"-tags=verif"}, Env: append(os.Environ(), "GOFLAGS=-mod=mod", "GOPROXY=off", "GOSUMDB=off", "GOTOOLCHAIN=local", "GOARCH=amd64", "GOOS=linux")}
+	cfg := &packages.Config{Mode: packages.LoadAllSyntax, Dir: repoRoot, BuildFlags: []string{"-tags=verif"}, Env: append(os.Environ(), "PATH=/opt/veriftools/go1.26.8/bin:"+os.Getenv("PATH"), "GOFLAGS=-mod=mod", "GOPROXY=off", "GOSUMDB=off", "GOTOOLCHAIN=local", "GOARCH=amd64", "GOOS=linux")}
 	pkgs, err := packages.Load(cfg, patterns...)
 	if err != nil {
 		return err
@@ -224,6 +224,11 @@ func (e *Engine) loadPackages(patterns []string) error {
 
 func pow2fDef() string {
 	var b strings.Builder
+	b.WriteString("(define-fun ispow2 ((x Int)) Bool (or")
+	for i := 0; i <= 63; i++ {
+		fmt.Fprintf(&b, " (= x %s)", pow2s(uint(i)))
+	}
+	b.WriteString("))\n")
 	b.WriteString("(define-fun pow2f ((k Int)) Int ")
 	for i := 0; i <= 64; i++ {
 		fmt.Fprintf(&b, "(ite (= k %d) %s ", i, pow2s(uint(i)))
